@@ -443,7 +443,7 @@ def line_cost(data, op):
 
 
 def run(tier, seed, only=None):
-    ck = Check("C04", tier, seed, "exploration")
+    ck = Check("C04", tier, seed, "exploration", evidence=only is None)
     ck.assumptions += ["'library decode errors' = diameter.message.packer.Error (incl. ConversionError) and AvpDecodeError",
                        "work is measured in AVP-decode calls and executed library source lines, not wall-clock time",
                        "Message.from_bytes is given the whole frame; a message length field that disagrees with the buffer is not by itself an error"]
